@@ -666,6 +666,9 @@ pub struct PollRun<F: Family> {
     pub log: Vec<ReadRec>,
     /// decoder returned Pending although the transport did not in that poll
     pub spurious_pending: bool,
+    /// the decoder returned Pending in a poll in which the waker of the task was not woken (the transport wakes the
+    /// waker it is given): nobody would poll this decode again
+    pub lost_wakeup: bool,
     pub polls: usize,
     pub reads_at_end: usize,
     pub final_state_is_header: bool,
@@ -734,9 +737,10 @@ pub fn dec_poll_styled<F: Family>(
     let mut resumed_after_error = 0u32;
     let mut transient_not_surfaced: Option<String> = None;
     let mut state: GenericPollPacketState<F::Header> = GenericPollPacketState::default();
-    let waker = sio::noop_waker();
+    let (waker, wakes) = sio::counting_waker();
     let mut cx = Context::from_waker(&waker);
     let mut spurious = false;
+    let mut lost_wakeup = false;
     let mut polls = 0usize;
     let mut npend = 0u32;
     let mut cloned_bytes = 0usize;
@@ -749,6 +753,7 @@ pub fn dec_poll_styled<F: Family>(
                 panic!("MQV-SPIN poll decoder polled {} times for {} bytes", polls, data.len());
             }
             let before = pend.get();
+            let wakes_before = wakes.get();
             match std::pin::Pin::new(&mut fut).poll(&mut cx) {
                 Poll::Ready(r) => {
                     // the current piece of the stream ended in this very poll (sio::Step::End): the decoder says "end of
@@ -786,6 +791,10 @@ pub fn dec_poll_styled<F: Family>(
 
                     if pend.get() == before {
                         spurious = true;
+                    }
+                    if wakes.get() == wakes_before {
+                        // the transport woke the waker it was given; it was not the task's
+                        lost_wakeup = true;
                     }
                     let bit = (drop_mask >> (npend % 64)) & 1;
                     npend += 1;
@@ -832,6 +841,7 @@ pub fn dec_poll_styled<F: Family>(
         pos: reader.pos,
         log: std::mem::take(&mut reader.log),
         spurious_pending: spurious,
+        lost_wakeup,
         polls,
         reads_at_end: reader.reads_at_end,
         final_state_is_header,
